@@ -8,6 +8,7 @@ MCRuntimeCycle_<id>fb.cfg), its own TLC script exporter (GenRuntimeCycle.cfg / G
 and its own stream of random scripts (cycle-gen --runs / --fb-runs); the model runs of the two
 families proceed concurrently with the script pipeline."""
 import json
+import time
 from concurrent.futures import ThreadPoolExecutor
 
 from common import (OUT, Report, ToolError, build_harness, digest, log, read_ndjson, run_tlc,
@@ -102,7 +103,7 @@ def gen_scripts(prop, tier, work):
     n_rand = 500 if tier == "quick" else 6000
     n_sim = 150 if tier == "quick" else 2500
     n_rand_fb = 160 if tier == "quick" else 2000
-    n_sim_fb = 50 if tier == "quick" else 800
+    n_sim_fb = 60 if tier == "quick" else 800
     with ThreadPoolExecutor(max_workers=2) as ex:
         base = ex.submit(export_scripts, "GenRuntimeCycle", n_sim, prop)
         fb = ex.submit(export_scripts, "GenRuntimeCycleFb", n_sim_fb, prop)
@@ -150,6 +151,7 @@ def run(prop, tier, replay):
     rep = Report(prop, tier, "fault_enumeration" if prop == "C08" else "model_checking")
     build_harness()
     mc = mcfb = None
+    phase, t0 = {}, time.time()
     pool = ThreadPoolExecutor(max_workers=1)
     models = None
     if replay:
@@ -163,16 +165,21 @@ def run(prop, tier, replay):
         except ToolError:
             models.result()     # a broken specification is reported by the model run first
             raise
+    phase["generate"], t0 = round(time.time() - t0, 1), time.time()
     allscripts = scripts + exported
     tr = execute(allscripts, work, "all")
     rows = read_ndjson(tr)
     runs = split_runs(rows)
+    phase["execute"], t0 = round(time.time() - t0, 1), time.time()
     # (scripts whose configuration the compiler rejected are dropped by the runner; every run names
     # the script it came from: Reset.si)
     verdict, tl = validate_trace("RuntimeCycleTrace", tr, tag=f"trace-{prop}")
+    phase["validate"], t0 = round(time.time() - t0, 1), time.time()
     if models is not None:
         mc, mcfb = models.result()
+        phase["model_without_fb"], phase["model_with_fb"] = round(mc["wall_s"], 1), round(mcfb["wall_s"], 1)
     pool.shutdown()
+    phase["wait_for_models"] = round(time.time() - t0, 1)
     if verdict["events"] != len(rows):
         raise ToolError("trace validation did not consume every event")
     n_fb_runs = sum(1 for r in runs if r[0]["cfg"]["fbs"])
@@ -225,6 +232,7 @@ def run(prop, tier, replay):
         "model_without_fb_associations": {k: (mc or {}).get(k, 0) for k in ("distinct", "generated", "depth")},
         "model_with_fb_associations": {"distinct": (mcfb or {}).get("distinct", 0), "generated": (mcfb or {}).get("generated", 0),
                                        "depth": (mcfb or {}).get("depth", 0), "action_coverage": (mcfb or {}).get("action_coverage", {})},
+        "phase_wall_s": phase,
         "traces_validated_against_impl": len(runs),
         "tlc_exported_scripts_replayed": len(exported),
         "random_scripts_replayed": len(scripts),
